@@ -6,12 +6,13 @@ from __future__ import annotations
 from fractions import Fraction
 
 import common
+from c10_impl import phase_cases
 from common import cbool, clist, cnat, copt, cq, cz, fjson, fparse
 
 PID = "C10"
 PROPS_FILE = "Props/C10.v"
 GEN_FILES: list[str] = []
-MODEL_FILES = ["Model/C10_als.v", "Model/C10_funksvd.v"]
+MODEL_FILES = ["Model/C10_als.v", "Model/C10_funksvd.v", "Model/C10_history.v"]
 ALLOWED_AXIOMS: list[str] = []   # every theorem of Props/C10.v is closed under the global context
 # coqchk lists the axioms of every library loaded with the closure of Props/C10.v: Model/C10_funksvd.v imports Coq's
 # primitive 63-bit integers and binary64 floats for the float instance that the case files run.  No theorem depends on
@@ -22,19 +23,22 @@ COQCHK_LIBRARY_AXIOMS = [
 ]
 CASE_HEADER = (
     "From Coq Require Import ZArith QArith PrimFloat.\n"
-    "From LK Require Import Lib.QLib Model.C10_als Model.C10_funksvd.\n"
+    "From LK Require Import Lib.QLib Model.C10_als Model.C10_funksvd Model.C10_history.\n"
     "Open Scope Q_scope."
 )
-SHARD = 8
+SHARD = 5
 TRUSTED = [
     "Coq 8.16.1 kernel + vm_compute (no native_compute); MathComp 1.15 + Algebra Tactics for Proofs/C10_normal_eq.v (closed under the global context)",
     "Coq's primitive binary64 floats and 63-bit integers (PrimFloat, Uint63) as the meaning of numba's float64 arithmetic in the FunkSVD loop "
     "(no fused multiply-add, operations in source order); they appear only in the correspondence run, never in a theorem's assumptions "
     "(coqchk of the thorough tier lists them as library axioms of the loaded closure: COQCHK_LIBRARY_AXIOMS)",
     "section hypothesis solve_exact: lenskit.math.solve.solve_cholesky (torch.linalg.cholesky_ex + cholesky_solve) returns a solution of A x = y; "
-    "what it returned is checked on every case through the residual |Ax-y| <= 2^-40 (|A||x|+|y|) with A, y rebuilt by the model",
-    "correspondence harness harness/props/c10.py + harness/c10_impl.py: wrapping of als_half_epoch / _train_bias_row_cholesky / _train_new_row / funksvd.Context "
-    "from outside, exact float->rational conversion, tolerances 2^-40 (float64 results) and 2^-18 (results of a few float32 operations: bias sums, normalised fold-in ratings)",
+    "what it returned is checked on every case through the residual |Ax-y| <= 2^-40 (|A||x| + |y| + | |M|^T|v| |) with A, y rebuilt by the model "
+    "(the last term is the size of the data y = M^T v was formed from: y may cancel to 0 exactly while the code's y is rounding noise)",
+    "correspondence harness harness/props/c10.py + harness/c10_impl.py: wrapping of als_half_epoch / new_user_embedding / funksvd.Context (and, while they exist, the private row "
+    "solvers _train_bias_row_cholesky / _train_new_row, to see the row a fold-in used) from outside; only public trained state is read back (user_features_, item_features_, bias_, "
+    "the datasets' vocabularies) -- no private cache such as OtOr_: the fold-in system is rebuilt by the model and by the oracle from the item embeddings of the LAST training; "
+    "exact float->rational conversion, tolerances 2^-40 (float64 results) and 2^-18 (results of a few float32 operations: bias sums, normalised fold-in ratings)",
     "BiasModel's formulas are property C08's; here the learned bias arrays are read from the trained object",
     "torch / numba / numpy kernels, TorchScript fork/wait fan-out (> 50 rows) are exercised, not verified",
 ]
@@ -45,9 +49,12 @@ ASSUMPTIONS = [
 ]
 RULE = ("structured generator: 2-9 users x 2-10 items (12x12 in the thorough tier; every 60th case 52-58 users so that explicit ALS takes its fork/wait fan-out), half-star ratings, optional users/items without data, "
         "embedding size 1-4, 0-3 epochs, scalar or per-side regularisation (dyadic and non-dyadic), damping scalar or per entity, "
-        "confidence weight, use_ratings, each user-embedding policy, float32 or float64 rating column, 3-5 scoring queries "
+        "confidence weight, use_ratings, each user-embedding policy, float32 or float64 rating column, 3-5 scoring queries after every training "
         "(known/unknown/no user; no/empty/known/partly-unknown/all-unknown history; known and unknown candidates); FunkSVD with 1-3 features, "
-        "1-4 epochs, optional rating range (also inverted), 4 learning rates; malformed stream: zero regularisation (solver may fail), zero epochs; "
+        "1-4 epochs, optional rating range (also inverted), 4 learning rates; training histories on ONE scorer object (5 in 11 ALS cases, 4 in 11 FunkSVD cases): 1-2 further "
+        "train() calls, each followed by 2-3 queries of its own -- on a fresh dataset (other vocabulary and sizes), on the previous data plus ratings / a new user / a new item, on the same data "
+        "with another seed, or train(retrain=False) on other data (must change nothing); 3 in 4 ALS histories have a fold-in query after every training; every residual / score / "
+        "trajectory check of a training and its queries is made against the state that training left; malformed stream: zero regularisation (solver may fail), zero epochs; "
         "non-trivial = training ran, at least one half-step updated >= 2 rows with data (ALS) or >= 2 samples share a user or item (FunkSVD), "
         "and at least one query returned a finite score; distinct = by hash of the case")
 
@@ -91,9 +98,9 @@ def gen_dataset(rng, big=False, wide=False):
     return users, items, ratings
 
 
-def gen_queries(rng, users, items, explicit_hist=True):
+def gen_queries(rng, users, items, lo=3, hi=5):
     qs = []
-    for _ in range(rng.randint(3, 5)):
+    for _ in range(rng.randint(lo, hi)):
         uk = rng.weighted([("known", 6), ("unknown", 2), ("none", 2)])
         user = rng.choice(users) if uk == "known" else (999 if uk == "unknown" else None)
         hk = rng.weighted([("none", 4), ("known", 3), ("mixed", 3), ("unknown", 1), ("empty", 1)])
@@ -141,7 +148,68 @@ def gen_case(rng, tier, malformed=False, wide=False):
         if malformed:
             case["range"] = ["4/1", "2/1"]      # inverted range
     case["style"] = kind + ("/malformed" if malformed else "") + ("/wide" if wide else "")
+    if not wide:
+        gen_trainings(rng.fork("trainings"), case)
     return case
+
+
+def has_fold_query(queries):
+    return any(q["history"] for q in queries)
+
+
+def force_fold_query(rng, queries, items):
+    """make sure one query of the list carries a history with a known item"""
+    if has_fold_query(queries) or not queries:
+        return
+    q = queries[rng.below(len(queries))]
+    n = rng.randint(1, min(3, len(items)))
+    q["history"] = [[i, fjson(Fraction(rng.randint(1, 10), 2))] for i in rng.sample(items, n)]
+
+
+def gen_more_data(rng, users, items, ratings):
+    """the previous data plus further ratings on unrated pairs, optionally a new user and a new item"""
+    users, items, ratings = list(users), list(items), [list(r) for r in ratings]
+    have = {(u, i) for u, i, _ in ratings}
+    if rng.chance(1, 2):
+        users.append(rng.choice([x for x in range(70, 80) if x not in users]))
+    if rng.chance(1, 2):
+        items.append(rng.choice([x for x in range(190, 200) if x not in items]))
+    free = [(u, i) for u in users for i in items if (u, i) not in have]
+    for u, i in rng.sample(free, min(len(free), rng.randint(1, 5))):
+        ratings.append([u, i, fjson(Fraction(rng.randint(1, 10), 2))])
+    return users, items, rng.shuffle(ratings)
+
+
+def gen_trainings(rng, case):
+    """Training history: further train() calls on the SAME scorer object, each followed by its own queries."""
+    als = case["kind"].startswith("als")
+    n = rng.weighted([(0, 6), (1, 4), (2, 1)]) if als else rng.weighted([(0, 7), (1, 3), (2, 1)])
+    if n == 0:
+        return
+    fold_every_time = als and rng.chance(3, 4)
+    if fold_every_time:
+        force_fold_query(rng, case["queries"], case["items"])
+    cur = (case["users"], case["items"], case["ratings"])       # data of the last training that ran
+    can_noop = (not als) or case["epochs"] > 0                   # IterativeTraining counts finished epochs
+    out = []
+    for _ in range(n):
+        how = rng.weighted([("fresh", 4), ("more", 3), ("reseed", 2), ("noop", 1 if can_noop else 0)])
+        if how in ("fresh", "noop"):
+            data = gen_dataset(rng)
+        elif how == "more":
+            data = gen_more_data(rng, *cur)
+        else:
+            data = tuple(list(x) for x in cur)
+        t = {"users": data[0], "items": data[1], "ratings": data[2], "seed": rng.randint(0, 2**31 - 1),
+             "retrain": how != "noop", "how": how}
+        if how != "noop":
+            cur = data
+        t["queries"] = gen_queries(rng, cur[0], cur[1], 2, 3)
+        if fold_every_time:
+            force_fold_query(rng, t["queries"], cur[1])
+        out.append(t)
+    case["trainings"] = out
+    case["style"] += "/history"
 
 
 def gen_cases(rng, tier):
@@ -159,6 +227,51 @@ def run_impl(case):
     if case["kind"] == "funksvd":
         return c10_impl.run_funksvd(case)
     return c10_impl.run_als(case)
+
+
+# ---------------------------------------------------------------------------------------------
+# training histories: the trainings made on the one scorer object, each with the state it must be judged against
+# ---------------------------------------------------------------------------------------------
+
+
+def describe_history(pcs, n):
+    parts = []
+    for j, pc in enumerate(pcs[: n + 1]):
+        nf = sum(1 for q in pc["queries"] if q["history"])
+        parts.append(f"train(d{j}, seed={pc['seed']}" + ("" if j == 0 else f", retrain={pc.get('retrain', True)}") + ")")
+        parts.append(f"{len(pc['queries'])} queries ({nf} with a history)")
+    return " -> ".join(parts)
+
+
+def phases(case, obs):
+    """One entry per train() call that was made: `case`/`obs` are what a single training with that data would be
+    (for a train(retrain=False) on a trained object: the data and vocabulary of the last training that ran, this call's
+    queries), `prev` the observation of the last training that ran before it, `noop` whether the call must change nothing,
+    `suffix` the part of the oracle key that names the history."""
+    pcs = phase_cases(case)
+    pobs = [obs] + list(obs.get("later") or [])
+    out = []
+    last = None      # entry of the last training that ran
+    n_ran = 0
+    for n, (pc, po) in enumerate(zip(pcs, pobs)):
+        trained = last is not None and (case["kind"] == "funksvd" or case["epochs"] > 0)
+        noop = n > 0 and not pc.get("retrain", True) and trained
+        if noop:
+            ec = {**last["case"], "queries": pc["queries"], "retrain": False}
+            eo = dict(po)
+            eo["users"], eo["items"] = last["obs"]["users"], last["obs"]["items"]
+        else:
+            ec, eo = pc, po
+        suffix = (":after-retrain" if (n_ran - (1 if noop else 0)) >= 1 else "") + (":after-noop-train" if noop else "")
+        e = {"n": n, "case": ec, "obs": eo, "noop": noop, "prev": last["obs"] if last else None, "suffix": suffix,
+             "label": describe_history(pcs, n) if n else ""}
+        out.append(e)
+        if po.get("error"):
+            break
+        if not noop:
+            last = e
+            n_ran += 1
+    return out
 
 
 # ---------------------------------------------------------------------------------------------
@@ -218,30 +331,65 @@ def raw_rows(case, obs):
     return [sorted(r) for r in rows]
 
 
-def coq_term_als(case, obs):
-    if obs["error"]:
-        return None
+class Pool:
+    """Literals that occur several times in the term of one training (the embedding snapshots around the half-steps,
+    the final embeddings and biases used by every query) are bound once with `let`: the case files are a third of the
+    size and type-check accordingly faster; vm_compute evaluates the same closed term."""
+
+    def __init__(self):
+        self.names, self.defs = {}, []
+
+    def share(self, lit, ty):
+        if len(lit) < 40:
+            return lit
+        if lit not in self.names:
+            self.names[lit] = f"s{len(self.names)}"
+            self.defs.append(f"let {self.names[lit]} : {ty} := {lit} in")
+        return self.names[lit]
+
+    def mat(self, m):
+        return self.share(c_mat(m), "mat")
+
+    def optmat(self, m):
+        return "None" if m is None else f"(Some {self.mat(m)})"
+
+    def wrap(self, parts):
+        return "\n".join(self.defs) + "\n(" + ")\n && (".join(parts) + ")"
+
+
+def c_optmat(m):
+    return "None" if m is None else f"(Some {c_mat(m)})"
+
+
+def als_parts(case, obs, noop=False, prev=None):
+    """Conjuncts for ONE training and its queries; `obs` carries the state that training left."""
     explicit = case["kind"] == "als-explicit"
     fb = "Explicit" if explicit else "Implicit"
     k = cnat(case["k"])
     lam_u, lam_i = regs(case)
-    ivocab = clist(obs["items"], cz)
+    pool = Pool()
+    ivocab = pool.share(clist(obs["items"], cz), "list Z")
     parts = []
-    raw = clist(raw_rows(case, obs), lambda r: clist(r, lambda ir: f"({cnat(ir[0])}, {cq(ir[1])})"))
-    if obs["steps"]:
+    if noop:
+        # train(retrain=False) on a trained object: no half-step, embeddings as the last training left them
+        if obs["steps"]:
+            return "false"
+        parts.append(f"kept_ok {pool.optmat(prev['P'])} {pool.optmat(obs['P'])} {pool.mat(prev['Q'])} {pool.mat(obs['Q'])}")
+    elif obs["steps"]:
+        raw = clist(raw_rows(case, obs), lambda r: clist(r, lambda ir: f"({cnat(ir[0])}, {cq(ir[1])})"))
         ui, iu = obs["matrix"]["user"], obs["matrix"]["item"]
-        steps = clist(obs["steps"], lambda s: f"{{| hs_side := {'SUser' if s['side'] == 'user' else 'SItem'}; hs_before := {c_mat(s['before'])}; "
-                                              f"hs_other := {c_mat(s['other'])}; hs_after := {c_mat(s['after'])} |}}")
+        steps = clist(obs["steps"], lambda s: f"{{| hs_side := {'SUser' if s['side'] == 'user' else 'SItem'}; hs_before := {pool.mat(s['before'])}; "
+                                              f"hs_other := {pool.mat(s['other'])}; hs_after := {pool.mat(s['after'])} |}}")
         P0, Q0 = obs["steps"][0]["before"], obs["steps"][0]["other"]
-        Pf = "None" if obs["P"] is None else f"(Some {c_mat(obs['P'])})"
-        parts.append(f"trained_ok_opt tol64 {fb} {k} {cq(lam_u)} {cq(lam_i)} {c_rows(ui)} {c_rows(iu)} {c_mat(P0)} {c_mat(Q0)} {steps} {Pf} {c_mat(obs['Q'])}")
-        parts.append(f"transposed_ok {c_rows(ui)} {c_rows(iu)}")
+        ui_c, iu_c = pool.share(c_rows(ui), "list srow"), pool.share(c_rows(iu), "list srow")
+        parts.append(f"trained_ok_opt tol64 {fb} {k} {cq(lam_u)} {cq(lam_i)} {ui_c} {iu_c} {pool.mat(P0)} {pool.mat(Q0)} {steps} {pool.optmat(obs['P'])} {pool.mat(obs['Q'])}")
+        parts.append(f"transposed_ok {ui_c} {iu_c}")
         if explicit:
             tolm = "tolf32" if case["rating_dtype"] == "f32" else "tol64"
-            parts.append(f"matrix_ok_explicit {tolm} {c_bias(obs['bias'], len(obs['users']), len(obs['items']))} {raw} {c_rows(ui)}")
+            parts.append(f"matrix_ok_explicit {tolm} {pool.share(c_bias(obs['bias'], len(obs['users']), len(obs['items'])), 'biases')} {raw} {ui_c}")
         else:
-            parts.append(f"matrix_ok_implicit tolf32 {cq(F(case['weight']))} {cbool(case['use_ratings'])} {raw} {c_rows(ui)}")
-    Popt = "None" if obs["P"] is None else f"(Some {c_mat(obs['P'])})"
+            parts.append(f"matrix_ok_implicit tolf32 {cq(F(case['weight']))} {cbool(case['use_ratings'])} {raw} {ui_c}")
+    Popt = pool.optmat(obs["P"])
     unum = {u: n for n, u in enumerate(obs["users"])}
     prefer = cbool(case["user_embeddings"] == "prefer")
     for q, o in zip(case["queries"], obs["queries"]):
@@ -254,21 +402,28 @@ def coq_term_als(case, obs):
         if len(o["folds"]) > 1 or len(o["embeds"]) > 1:
             parts.append("false")
             continue
+        cands = clist(q["items"], cz)
+        # the fold-in system is rebuilt inside query_ok_* from obs["Q"] (the item embeddings this training left), the
+        # ridge and the history -- never from a value cached on the object
+        if explicit:
+            args = (f"{k} {cq(lam_u)} {ivocab} {pool.mat(obs['Q'])} {Popt} {pool.share(c_bias(obs['bias'], len(obs['users']), len(obs['items'])), 'biases')} "
+                    f"{cq(user_damp(case))} {prefer} {un} {h} {cands}")
+        else:
+            args = (f"{k} {cq(lam_u)} {ivocab} {pool.mat(obs['Q'])} {Popt} {cq(F(case['weight']))} {cbool(case['use_ratings'])} "
+                    f"{prefer} {un} {h} {cands}")
+        tols = "tol64 tolf32" if explicit else "tol64 tolf32 tol32"
+        name = "query_ok_explicit" if explicit else "query_ok_implicit"
+        if o["embeds"] and not o["folds"]:
+            # the private row solver was not observable: history in, embedding out (Model/C10_history.v)
+            parts.append(f"{name}_pub {tols} {args} {c_vec(o['embeds'][0]['u'])} {c_scores(o)}")
+            continue
         if o["folds"]:
             f = o["folds"][0]
-            fold = f"(Some ({c_srow(list(zip(f['nums'], f['vals'])))}, {c_vec(o['embeds'][0]['u'])}))"
+            fold = f"(Some ({c_srow(list(zip(f['nums'], f['vals'])))}, {c_vec(o['embeds'][0]['u'])}))" if o["embeds"] else "None"
         else:
             fold = "None"
-        cands = clist(q["items"], cz)
-        if explicit:
-            parts.append(f"query_ok_explicit tol64 tolf32 {k} {cq(lam_u)} {ivocab} {c_mat(obs['Q'])} {Popt} "
-                         f"{c_bias(obs['bias'], len(obs['users']), len(obs['items']))} {cq(user_damp(case))} {prefer} {un} {h} {cands} {fold} {c_scores(o)}")
-        else:
-            parts.append(f"query_ok_implicit tol64 tolf32 tol32 {k} {cq(lam_u)} {ivocab} {c_mat(obs['Q'])} {Popt} "
-                         f"{cq(F(case['weight']))} {cbool(case['use_ratings'])} {prefer} {un} {h} {cands} {fold} {c_scores(o)}")
-    if not explicit:
-        parts.append(f"all2 (all2 (fun a b => close tol64 a b)) {c_mat(obs['OtOr'])} (otor {k} {cq(lam_u)} {c_mat(obs['Q'])})")
-    return "(" + ")\n && (".join(parts) + ")"
+        parts.append(f"{name} {tols} {args} {fold} {c_scores(o)}")
+    return pool.wrap(parts) if parts else None
 
 
 def cfloat(h):
@@ -279,20 +434,28 @@ def qhex(h):
     return Fraction(float.fromhex(h))
 
 
-def coq_term_funksvd(case, obs):
-    if obs["error"]:
-        return None
-    c = obs["ctx"]
-    smps = clist(list(zip(c["users"], c["items"], c["ratings"], c["bias"])),
-                 lambda s: f"({cnat(s[0])}, {cnat(s[1])}, {cfloat(s[2])}, {cfloat(s[3])})")
-    rng = "None" if case["range"] is None else f"(Some ({cfloat(float(F(case['range'][0])).hex())}, {cfloat(float(F(case['range'][1])).hex())}))"
-    p = (f"(fparams {cnat(case['epochs'])} {cfloat(float(F(case['lrate'])).hex())} "
-         f"{cfloat(float(F(case['reg'])).hex())} {rng} {cfloat((0.1).hex())})")
-    fm = lambda m: clist(m, lambda r: clist(r, cfloat))
-    parts = [f"funksvd_agree {p} {cnat(case['k'])} {cnat(len(obs['users']))} {cnat(len(obs['items']))} {smps} {fm(obs['P'])} {fm(obs['Q'])}"]
-    qm = lambda m: clist(m, lambda r: clist(r, lambda h: cq(qhex(h))))
+def funksvd_parts(case, obs, noop=False, prev=None):
+    pool = Pool()
+    fm = lambda m: pool.share(clist(m, lambda r: clist(r, cfloat)), "list (list float)")
+    qm = lambda m: pool.share(clist(m, lambda r: clist(r, lambda h: cq(qhex(h)))), "mat")
+    parts = []
+    if noop:
+        if obs["ctx"] is not None:
+            return "false"
+        parts.append(f"kept_ok (Some {qm(prev['P'])}) (Some {qm(obs['P'])}) {qm(prev['Q'])} {qm(obs['Q'])}")
+    else:
+        c = obs["ctx"]
+        if c is None:
+            return "false"
+        smps = clist(list(zip(c["users"], c["items"], c["ratings"], c["bias"])),
+                     lambda s: f"({cnat(s[0])}, {cnat(s[1])}, {cfloat(s[2])}, {cfloat(s[3])})")
+        rng = "None" if case["range"] is None else f"(Some ({cfloat(float(F(case['range'][0])).hex())}, {cfloat(float(F(case['range'][1])).hex())}))"
+        p = (f"(fparams {cnat(case['epochs'])} {cfloat(float(F(case['lrate'])).hex())} "
+             f"{cfloat(float(F(case['reg'])).hex())} {rng} {cfloat((0.1).hex())})")
+        parts.append(f"funksvd_agree {p} {cnat(case['k'])} {cnat(len(obs['users']))} {cnat(len(obs['items']))} {smps} {fm(obs['P'])} {fm(obs['Q'])}")
     unum = {u: n for n, u in enumerate(obs["users"])}
-    ivocab = clist(obs["items"], cz)
+    ivocab = pool.share(clist(obs["items"], cz), "list Z")
+    bias = pool.share(c_bias(obs["bias"], len(obs["users"]), len(obs["items"])), "biases")
     for q, o in zip(case["queries"], obs["queries"]):
         if o["error"]:
             parts.append("false")
@@ -300,14 +463,24 @@ def coq_term_funksvd(case, obs):
         un = copt(unum.get(q["user"]), cnat)
         h = "None" if q["history"] is None else f"(Some {c_hist(q['history'])})"
         parts.append(f"query_ok_funksvd tolf32 {cnat(case['k'])} {ivocab} {qm(obs['Q'])} {qm(obs['P'])} "
-                     f"{c_bias(obs['bias'], len(obs['users']), len(obs['items']))} {cq(user_damp(case))} {un} {h} {clist(q['items'], cz)} {c_scores(o)}")
-    return "(" + ")\n && (".join(parts) + ")"
+                     f"{bias} {cq(user_damp(case))} {un} {h} {clist(q['items'], cz)} {c_scores(o)}")
+    return pool.wrap(parts) if parts else None
 
 
 def coq_term(case, obs):
-    if case["kind"] == "funksvd":
-        return coq_term_funksvd(case, obs)
-    return coq_term_als(case, obs)
+    """The conjunction over the training history: every training like a single training, every query against the
+    state of the last training that ran before it."""
+    mk = funksvd_parts if case["kind"] == "funksvd" else als_parts
+    parts = []
+    for e in phases(case, obs):
+        if e["obs"].get("error"):
+            continue
+        t = mk(e["case"], e["obs"], e["noop"], e["prev"])
+        if t is not None:
+            parts.append(t)
+    if not parts:
+        return None
+    return "(" + ")\n && (".join(parts) + ")"
 
 
 # ---------------------------------------------------------------------------------------------
@@ -323,14 +496,23 @@ def dotf(a, b):
     return sum(x * y for x, y in zip(a, b))
 
 
-def backward_error(A, x, y):
+def backward_error(A, x, y, data=Fraction(0)):
+    """residual |Ax - y| and the scale it is measured against: |A||x| + |y| + the size of the data the right-hand side was
+    formed from (`data_scale`: y = M^T v is computed with an error proportional to |M|^T |v|; when its terms cancel --
+    two history items with the same embedding and opposite normalised ratings give y = 0 exactly -- |y| says nothing
+    about the rounding noise in the code's y and x)."""
     k = len(y)
     r = max((abs(dotf(A[i], x) - y[i]) for i in range(k)), default=Fraction(0))
     na = max((sum(abs(a) for a in row) for row in A), default=Fraction(0))
     nx = max((abs(a) for a in x), default=Fraction(0))
     ny = max((abs(a) for a in y), default=Fraction(0))
-    scale = na * nx + ny
+    scale = na * nx + ny + data
     return r, scale
+
+
+def data_scale(k, other, row, explicit):
+    """| |M|^T |v| |_inf (explicit) / | |M|^T (|v| + 1) |_inf (implicit), M = other[cols, :]"""
+    return max((sum(abs(other[c][a]) * (abs(v) + (0 if explicit else 1)) for c, v in row) for a in range(k)), default=Fraction(0))
 
 
 def sys_explicit(k, lam, other, row):
@@ -387,7 +569,9 @@ def check_scores(v, tag, q, o, want, tol):
             return
 
 
-def oracle_als(case, obs):
+def oracle_als(case, obs, noop=False, prev=None):
+    """ONE training and its queries; `obs` carries the state that training left (for a train(retrain=False) on a trained
+    object: `prev` is the observation of the last training that ran, `case` its data with this call's queries)."""
     v = []
     explicit = case["kind"] == "als-explicit"
     tag = "explicit" if explicit else "implicit"
@@ -397,10 +581,15 @@ def oracle_als(case, obs):
             return v      # no ridge: the system may be singular; the statement needs regularisation * count > 0
         return [(f"{tag}:training-error", f"training raised {obs['error']}: {obs.get('msg')}")]
     k = case["k"]
-    if len(obs["steps"]) != 2 * case["epochs"]:
+    if noop:
+        if obs["steps"]:
+            return [(f"{tag}:retrain-false-trained", f"train(retrain=False) on a trained object ran {len(obs['steps'])} half-steps")]
+        if (obs["P"], obs["Q"], obs.get("bias")) != (prev["P"], prev["Q"], prev.get("bias")):
+            return [(f"{tag}:retrain-false-changed-state", "train(retrain=False) on a trained object changed the embeddings or biases")]
+    elif len(obs["steps"]) != 2 * case["epochs"]:
         v.append((f"{tag}:step-count", f"{len(obs['steps'])} half-steps for {case['epochs']} epochs"))
-    raw = raw_rows(case, obs)
     if obs["steps"]:
+        raw = raw_rows(case, obs)
         ui = [[(c, F(x)) for c, x in row] for row in obs["matrix"]["user"]]
         iu = [[(c, F(x)) for c, x in row] for row in obs["matrix"]["item"]]
         # the training matrix: bias-normalised ratings / confidence weights, and its transpose
@@ -443,7 +632,7 @@ def oracle_als(case, obs):
                         break
                     continue
                 A, y = (sys_explicit if explicit else sys_implicit)(k, lam, other, row)
-                res, scale = backward_error(A, new, y)
+                res, scale = backward_error(A, new, y, data_scale(k, other, row, explicit))
                 if res > TOL64 * scale:
                     v.append((f"{tag}:row-not-optimal", f"{s['side']} row {r} after half-step {n}: residual {float(res):.3g} of its normal equations (scale {float(scale):.3g})"))
                     break
@@ -467,33 +656,43 @@ def oracle_als(case, obs):
         path, n = expected_path(case, obs, q)
         ub = Fraction(0)
         if path == "fold":
-            if len(o["folds"]) != 1 or len(o["embeds"]) != 1:
+            if len(o["folds"]) > 1 or len(o["embeds"]) != 1:
                 v.append((f"{tag}:foldin-missing", "a history was supplied but no embedding was folded in"))
                 continue
-            f = o["folds"][0]
             known = [(inum[i], F(r)) for i, r in q["history"] if i in inum]
-            if f["nums"] != [c for c, _ in known]:
-                v.append((f"{tag}:foldin-items", f"fold-in used item numbers {f['nums']}, the history's known items are {[c for c, _ in known]}"))
-                continue
             if explicit:
                 ub = new_user_bias(case, obs, q["history"])
                 b = obs["bias"]
                 want = [r - (F(b["global"]) + F(b["item"][c]) + ub) for c, r in known]
             else:
                 want = [(r * F(case["weight"]) if case["use_ratings"] else F(case["weight"])) for c, r in known]
-            if any(not close(F(x), w, TOLB) for x, w in zip(f["vals"], want)):
-                v.append((f"{tag}:foldin-values", f"fold-in values {[float(F(x)) for x in f['vals']]} differ from {[float(w) for w in want]}"))
-                continue
-            row = list(zip(f["nums"], [F(x) for x in f["vals"]]))
+            slack = Fraction(0)
+            if o["folds"]:
+                f = o["folds"][0]
+                if f["nums"] != [c for c, _ in known]:
+                    v.append((f"{tag}:foldin-items", f"fold-in used item numbers {f['nums']}, the history's known items are {[c for c, _ in known]}"))
+                    continue
+                if any(not close(F(x), w, TOLB) for x, w in zip(f["vals"], want)):
+                    v.append((f"{tag}:foldin-values", f"fold-in values {[float(F(x)) for x in f['vals']]} differ from {[float(w) for w in want]}"))
+                    continue
+                row = list(zip(f["nums"], [F(x) for x in f["vals"]]))
+            else:
+                # the private row solver was not observable: history in, embedding out.  The code normalises the ratings in
+                # single precision (each value within TOLB * max(1, |v|) of v), which moves the right-hand side M^T v of
+                # the explicit system by at most the slack below; the implicit confidence values are exact.
+                row = [(c, w) for (c, _), w in zip(known, want)]
+                if explicit:
+                    slack = TOLB * max((sum(abs(Qf[c][a]) * max(1, abs(w)) for c, w in row) for a in range(k)), default=Fraction(0))
             x = [F(a) for a in o["embeds"][0]["u"]]
             if explicit and not row:
                 if any(a != 0 for a in x):
                     v.append((f"{tag}:foldin-empty", "no known item in the history but a non-zero embedding"))
             else:
+                # the system of THIS history over the item embeddings the last training left (Qf), rebuilt here
                 A, y = sys_explicit(k, lam_u, Qf, row) if explicit else sys_implicit(k, lam_u, Qf, row)
-                res, scale = backward_error(A, x, y)
-                if len(x) != k or res > TOL64 * scale:
-                    v.append((f"{tag}:foldin-not-optimal", f"folded-in embedding has residual {float(res):.3g} in the system of its history (scale {float(scale):.3g})"))
+                res, scale = backward_error(A, x, y, data_scale(k, Qf, row, explicit))
+                if len(x) != k or res > TOL64 * scale + slack:
+                    v.append((f"{tag}:foldin-not-optimal", f"folded-in embedding has residual {float(res):.3g} in the system of its history over the current item embeddings (scale {float(scale):.3g})"))
             u = x
         elif path == "trained":
             if o["embeds"]:
@@ -527,10 +726,18 @@ def py_funksvd(case, c):
     return users, items, ratings, est, nf, lr, reg, rmin, rmax
 
 
-def oracle_funksvd(case, obs):
+def oracle_funksvd(case, obs, noop=False, prev=None):
     v = []
     if obs["error"]:
         return [("funksvd:training-error", f"training raised {obs['error']}: {obs.get('msg')}")]
+    if noop:
+        if obs["ctx"] is not None:
+            return [("funksvd:retrain-false-trained", "train(retrain=False) on a trained object ran the trainer")]
+        if (obs["P"], obs["Q"], obs["bias"]) != (prev["P"], prev["Q"], prev["bias"]):
+            return [("funksvd:retrain-false-changed-state", "train(retrain=False) on a trained object changed the features or biases")]
+        return v + funksvd_scoring(case, obs)
+    if obs["ctx"] is None:
+        return [("funksvd:not-trained", "train() returned without running the trainer")]
     c, e = obs["ctx"], obs["expected_order"]
     if (c["users"], c["items"], c["ratings"]) != (e["users"], e["items"], e["ratings"]):
         v.append(("funksvd:sample-order", "the samples handed to the trainer are not the rating matrix in the seeded shuffle order"))
@@ -566,7 +773,14 @@ def oracle_funksvd(case, obs):
     if gotP != P or gotQ != Qm:
         worst = max([abs(a - b) for ra, rb in zip(gotP + gotQ, P + Qm) for a, b in zip(ra, rb)], default=0.0)
         v.append(("funksvd:trajectory", f"features differ from feature-wise SGD with the documented rule (max difference {worst:.3g})"))
-    # scoring
+    return v + funksvd_scoring(case, obs)
+
+
+def funksvd_scoring(case, obs):
+    v = []
+    b = obs["bias"]
+    gotP = [[float.fromhex(h) for h in r] for r in obs["P"]]
+    gotQ = [[float.fromhex(h) for h in r] for r in obs["Q"]]
     unum = {u: n for n, u in enumerate(obs["users"])}
     inum = {i: n for n, i in enumerate(obs["items"])}
     Pq = [[Fraction(x) for x in r] for r in gotP]
@@ -589,7 +803,14 @@ def oracle_funksvd(case, obs):
 
 
 def oracle(case, obs):
-    v = oracle_funksvd(case, obs) if case["kind"] == "funksvd" else oracle_als(case, obs)
+    """The property on every training of the history and on every query against the state of the LAST training that ran
+    before it.  Keys of later trainings carry `:after-retrain` (the state was left by a re-training of the same object)
+    and/or `:after-noop-train` (a train(retrain=False) on the trained object came in between)."""
+    fn = oracle_funksvd if case["kind"] == "funksvd" else oracle_als
+    v = []
+    for e in phases(case, obs):
+        for key, what in fn(e["case"], e["obs"], e["noop"], e["prev"]):
+            v.append((key + e["suffix"], (f"[{e['label']}] " if e["n"] else "") + what))
     seen, out = set(), []
     for k, w in v:
         if k not in seen:
@@ -618,8 +839,26 @@ def counters(case, obs):
     yield f"k={case['k']}"
     yield f"epochs={case['epochs']}"
     yield "ratings=" + case["rating_dtype"]
-    if obs.get("error"):
-        return
+    ph = phases(case, obs)
+    yield f"trainings-on-one-object={len(ph)}"
+    shape = []
+    for e in ph:
+        pc, po = e["case"], e["obs"]
+        if e["n"]:
+            yield "later-training=" + str(phase_cases(case)[e["n"]].get("how"))
+        if po.get("error"):
+            shape.append("train-error")
+            if e["n"]:
+                yield "later-training-error=" + str(po["error"])
+            continue
+        folded = case["kind"] != "funksvd" and any(o.get("embeds") for o in po["queries"])
+        shape.append(("noop-train" if e["noop"] else "train" if not e["n"] else "retrain") + ("+fold-in" if folded else ""))
+        yield from phase_counters(pc, po)
+    if len(ph) > 1:
+        yield "history=" + " ".join(shape)
+
+
+def phase_counters(case, obs):
     if case["kind"] != "funksvd":
         yield "reg=" + ("per-side" if isinstance(case["reg"], list) else "scalar")
         yield "user_embeddings=" + str(case["user_embeddings"])
@@ -628,11 +867,13 @@ def counters(case, obs):
             yield "rows-without-data=" + str(min(ne, 3))
         for q, o in zip(case["queries"], obs["queries"]):
             yield "path=" + expected_path(case, obs, q)[0]
+            if o["embeds"] and not o["folds"]:
+                yield "foldin-seen-through-public-interface-only"
             if o["folds"]:
                 yield "foldin-known-items=" + str(min(3, len(o["folds"][0]["nums"])))
                 if q["history"] and len(o["folds"][0]["nums"]) < len(q["history"]):
                     yield "foldin-history-with-unknown-items"
-    else:
+    elif obs["ctx"] is not None:
         yield "range=" + ("none" if case["range"] is None else "set")
         yield "samples=" + str(min(40, len(obs["ctx"]["users"]) // 10 * 10))
     for q, o in zip(case["queries"], obs["queries"]):
@@ -646,15 +887,42 @@ def counters(case, obs):
 def sample(case, obs):
     small = {k: case[k] for k in ("kind", "k", "epochs", "reg", "seed")}
     small["n_ratings"] = len(case["ratings"])
+    small["later_trainings"] = [{"how": t.get("how"), "retrain": t.get("retrain", True), "n_ratings": len(t["ratings"]), "seed": t["seed"]}
+                                for t in case.get("trainings") or []]
     o = {"error": obs.get("error")}
     if not obs.get("error"):
         o["Q_first_row"] = obs["Q"][0] if obs["Q"] else None
         o["first_query_scores"] = obs["queries"][0].get("scores") if obs["queries"] else None
+        o["later"] = [{"error": l.get("error"), "Q_first_row": (l["Q"][0] if l.get("Q") else None)} for l in obs.get("later") or []]
     return {"case": small, "observation": o}
 
 
+_SHRINKS_LEFT = [5]     # at most 5 failing inputs are minimised per run (every trial re-runs the trainings); the rest are reported as generated
+
+
 def shrink(case, fails):
+    if _SHRINKS_LEFT[0] <= 0:
+        return case
+    _SHRINKS_LEFT[0] -= 1
     c = dict(case)
+    if case.get("trainings"):
+        # later trainings first (a failure after a re-training needs its predecessors: whole entries are dropped only
+        # while the same key still fails), then the queries and ratings of every training
+        tr = common.shrink_list(case["trainings"], lambda xs: fails({**c, "trainings": xs}), 8)
+        if tr:
+            c["trainings"] = tr
+        else:
+            c.pop("trainings", None)
     c["queries"] = common.shrink_list(case["queries"], lambda xs: fails({**c, "queries": xs}), 12)
     c["ratings"] = common.shrink_list(case["ratings"], lambda xs: bool(xs) and fails({**c, "ratings": xs}), 40)
+    for j in range(len(c.get("trainings") or [])):
+        def with_t(field, xs):
+            tr = [dict(t) for t in c["trainings"]]
+            tr[j][field] = xs
+            return {**c, "trainings": tr}
+        t = c["trainings"][j]
+        qs = common.shrink_list(t["queries"], lambda xs: fails(with_t("queries", xs)), 10)
+        c = with_t("queries", qs)
+        rs = common.shrink_list(t["ratings"], lambda xs: bool(xs) and fails(with_t("ratings", xs)), 24)
+        c = with_t("ratings", rs)
     return c
